@@ -533,3 +533,27 @@ func singleStore(v ssa.Value) ssa.Value {
 	}
 	return v
 }
+
+// localFns: f and the functions of its package it calls statically (one level): the places a step of f may have been
+// moved to by an extract-function refactoring.
+func localFns(p *Prog, f *ssa.Function) []*ssa.Function {
+	out := []*ssa.Function{f}
+	seen := map[*ssa.Function]bool{f: true}
+	eachInstr(f, func(ins ssa.Instruction) {
+		ci, ok := ins.(ssa.CallInstruction)
+		if !ok {
+			return
+		}
+		if g := ci.Common().StaticCallee(); g != nil && g.Pkg == f.Pkg && len(g.Blocks) > 0 && !seen[g] {
+			seen[g] = true
+			out = append(out, g)
+		}
+	})
+	return out
+}
+
+func eachInstrOf(fs []*ssa.Function, fn func(ins ssa.Instruction)) {
+	for _, f := range fs {
+		eachInstr(f, fn)
+	}
+}
